@@ -59,7 +59,11 @@ def families(tier: str) -> list[dict]:
     rc2 = dict(base, F=2, I=1, in_hook=False, accum=1, damping='damp_lin')
     fams.append(reffam.fam(rc2, ['Train', 'Step', 'Reset', 'FwdOnly'], d - 1))
     ck = dict(base, F=1, I=3, in_hook=True, accum=1, prediv=True)
-    fams.append(reffam.fam(ck, ['Train', 'Step', 'Save', 'Load'], d - 1))
+    fams.append(reffam.fam(ck, ['Train', 'Step', 'Save', 'Load'], d + 1,
+                           save_args=(True,), load_args=(True,)))
+    ck2 = dict(base, F=1, I=2, in_hook=False, accum=1, method='inverse')
+    fams.append(reffam.fam(ck2, ['Train', 'Step', 'Save', 'Load'], d + 1,
+                           save_args=(True,), load_args=(True,)))
     # the wide alphabet by simulation
     wide = dict(base, F=2, I=3, in_hook=True, accum=2, damping='damp_lin',
                 sched={'lr': 'half'})
